@@ -61,7 +61,8 @@ theorem volBounds_eq_model (s c i : Nat) :
 theorem nextCmc_eq_model (m s p masked n : Nat) :
     Src.nextCmc (appended := n) (preshift_bits := p) (shard_bits := s) (minishard_bits := m)
       (masked_bits := masked) (preshift_mask := 2 ^ p - 1) = Shard.nextId m s p masked n := by
-  simp only [Src.nextCmc, Shard.nextId]
+  -- (sums normalised up to associativity and commutativity: the source may group or order them differently)
+  simp only [Src.nextCmc, Shard.nextId, Nat.add_assoc, Nat.add_comm, Nat.add_left_comm]
 
 /-- the loop bounds of `convert_chunks_for_scale` as written in the source are the ranges of the model's grid -/
 theorem cvtBounds_eq_model (s c i : Nat) :
@@ -98,8 +99,14 @@ theorem routing_eq_model (m s p id : Nat) :
     Src.shardKey (shard_mask := Routing.shardMask m s) (hash_cmc := Routing.hash p id) (minishard_bits := m)
       = Routing.shardKey m s p id ∧
     Src.minishardKey (minishard_mask := Routing.minishardMask m) (hash_cmc := Routing.hash p id)
-      = Routing.minishardKey m p id :=
-  ⟨rfl, rfl, rfl, rfl, rfl⟩
+      = Routing.minishardKey m p id := by
+  -- (the two key formulas are proved up to commutativity of `&` and distribution of `>>` over `&`: the source may
+  -- write `(mask & h) >> m` or `(h >> m) & (mask >> m)`)
+  refine ⟨rfl, rfl, rfl, ?_, ?_⟩
+  · unfold Src.shardKey Routing.shardKey
+    first | rfl | (simp only [Routing.shr64]; split <;> simp [Nat.shiftRight_and_distrib, Nat.and_comm])
+  · unfold Src.minishardKey Routing.minishardKey
+    first | rfl | simp [Nat.and_comm]
 
 /-- the per-level arithmetic of the scale generator as written in the source is the model's -/
 theorem scales_arith_eq_model (s L d maxd e sum af : Nat) (hs : 1 ≤ s) (hbase : (sum + 1) / 3 ≤ e) :
